@@ -33,6 +33,42 @@ Lemma entry_inherits_processor_fields :
   en_inherited gen_entry ["logins"; "nodeName"; "machineID"; "eventW"; "metrics"] = true.
 Proof. reflexivity. Qed.
 
+(* the context the handlers select on (hand-off, cancellation) is the CALLER's context parameter itself: a derived
+   context (context.WithTimeout / WithDeadline / WithCancel ...) would be a call expression (FromOtherExpr) and needs
+   statements of its own in the body, which the generator does not accept; it is not the processor's context either *)
+Lemma entry_context_is_callers : en_lookup "ctx" (en_config gen_entry) = Some FromCtxParam.
+Proof. reflexivity. Qed.
+
+(* the body is ONE call of ProcessEntry on a fresh per-line config whose result is returned: the sketch has no form for
+   any other statement (guards / early returns, loops, defers, assignments to the processor), so nothing of the
+   long-lived processor is read beyond the five inherited fields and nothing is written to it *)
+Lemma entry_single_call :
+  en_callee gen_entry = "ProcessEntry" /\ en_result_returned gen_entry = true /\
+  map fst (en_config gen_entry) = ["ctx"; "logins"; "logEntry"; "nodeName"; "machineID"; "when"; "pid"; "eventW"; "metrics"] /\
+  en_lookup "when" (en_config gen_entry) = Some FromTimeNow.
+Proof. repeat split; reflexivity. Qed.
+
+(* ---------- 1b. the long-lived processor ---------- *)
+Lemma constructor_exact :
+  gen_constructor = {| ct_fields := ["ctx"; "logins"; "logEntry"; "nodeName"; "machineID"; "when"; "pid"; "eventW"; "metrics"];
+                       ct_inits := [("ctx", "ctx"); ("logins", "logins"); ("nodeName", "nodeName"); ("machineID", "machineID");
+                                    ("eventW", "eventW"); ("metrics", "m")];
+                       ct_result := "SshdProcessor";
+                       ct_entry_impls := ["SshdProcessorer"] |}.
+Proof. reflexivity. Qed.
+
+(* The processor the daemon keeps for its whole life has NO field beyond those the per-line configuration literal sets
+   afresh for every line: there is nothing in which state could be carried from one line to the next (a remembered
+   previous record, a cache, a counter).  NewSshdProcessor is a single return of that struct built from its parameters
+   (no wrapper type, no goroutine started), and SshdProcessorer is the only type of the package with a
+   ProcessSshdLogEntry method. *)
+Theorem processor_keeps_no_state :
+  ct_fields gen_constructor = map fst (en_config gen_entry) /\
+  ct_entry_impls gen_constructor = ["SshdProcessorer"] /\
+  ct_result gen_constructor = "SshdProcessor" /\
+  map fst (ct_inits gen_constructor) = ["ctx"; "logins"; "nodeName"; "machineID"; "eventW"; "metrics"].
+Proof. repeat split; reflexivity. Qed.
+
 (* spelled out for the model's entry point: what ProcessEntry is run on is the entry itself *)
 Corollary process_applied_to_entry : forall c pid msg wok ready tok line,
   entry_args gen_entry (pid, msg) = Some (tok, line) ->
@@ -106,6 +142,9 @@ Lemma model_labels_are_source_constants :
 Proof. vm_compute. reflexivity. Qed.
 
 Print Assumptions entry_from_source.
+Print Assumptions entry_context_is_callers.
+Print Assumptions entry_single_call.
+Print Assumptions processor_keeps_no_state.
 Print Assumptions inc_logins_from_source.
 Print Assumptions label_names_determined_by_values.
 Print Assumptions model_labels_are_source_constants.
